@@ -4,7 +4,7 @@ CONSTANTS
   MaxCrashes = 99
   F8Fixed = FALSE
   F9Fixed = FALSE
-  F15Fixed = FALSE
+  FccFixed = FALSE
   CommitBeforeCheckpoint = FALSE
   EnvAtomic = FALSE
 INVARIANTS ConformLog ConformExt ResolvedOnlyWhenEmpty MarkedOnlyWhenResolved UpstreamConsistent VerdictInv
